@@ -459,7 +459,7 @@ pub fn field_fault(img: &mut Img, kind: usize) -> &'static str {
         15 => img.opts[8] = interesting_u8(img.opts[8]),
         16 => img.opts[9] = interesting_u8(img.opts[9]),
         17 => {
-            img.num_constraints = [0u64, 1, img.num_constraints + 1, img.num_constraints.wrapping_sub(1), 1 << 32, u64::MAX, img.num_constraints + (1 << 32)]
+            img.num_constraints = [0u64, 1, img.num_constraints.wrapping_add(1), img.num_constraints.wrapping_sub(1), 1 << 32, u64::MAX, img.num_constraints.wrapping_add(1 << 32)]
                 [tape::f("edit.u64", 7) as usize]
         },
         18 => img.num_unique_queries = interesting_u8(img.num_unique_queries),
@@ -471,12 +471,12 @@ pub fn field_fault(img: &mut Img, kind: usize) -> &'static str {
         20 => flip_in(&mut img.commitments),
         21 => {
             let q = pick_queries(img);
-            q.values_len = [0u64, q.values_len + 1, q.values_len.wrapping_sub(1), 1 << 32, u64::MAX, 1 << 56][tape::f("edit.u64", 6) as usize];
+            q.values_len = [0u64, q.values_len.wrapping_add(1), q.values_len.wrapping_sub(1), 1 << 32, u64::MAX, 1 << 56][tape::f("edit.u64", 6) as usize];
         },
         22 => flip_in(&mut pick_queries(img).values),
         23 => {
             let q = pick_queries(img);
-            q.proof_len = [0u64, q.proof_len + 1, q.proof_len.wrapping_sub(1), 1 << 32, u64::MAX][tape::f("edit.u64", 5) as usize];
+            q.proof_len = [0u64, q.proof_len.wrapping_add(1), q.proof_len.wrapping_sub(1), 1 << 32, u64::MAX][tape::f("edit.u64", 5) as usize];
         },
         24 => {
             let m = pick_merkle(img);
@@ -484,14 +484,14 @@ pub fn field_fault(img: &mut Img, kind: usize) -> &'static str {
         },
         25 => {
             let m = pick_merkle(img);
-            m.nvec = [0u64, m.nvec + 1, m.nvec.wrapping_sub(1), 1 << 20, 1 << 40, u64::MAX][tape::f("edit.u64", 6) as usize];
+            m.nvec = [0u64, m.nvec.wrapping_add(1), m.nvec.wrapping_sub(1), 1 << 20, 1 << 40, u64::MAX][tape::f("edit.u64", 6) as usize];
         },
         26 => {
             let m = pick_merkle(img);
             if !m.vecs.is_empty() {
                 let i = tape::f("edit.vec", m.vecs.len() as u64) as usize;
                 let c = m.vecs[i].0;
-                m.vecs[i].0 = [0u64, c + 1, c.wrapping_sub(1), 1 << 20, 1 << 58, u64::MAX][tape::f("edit.u64", 6) as usize];
+                m.vecs[i].0 = [0u64, c.wrapping_add(1), c.wrapping_sub(1), 1 << 20, 1 << 58, u64::MAX][tape::f("edit.u64", 6) as usize];
             }
         },
         27 => {
